@@ -805,6 +805,13 @@ func (s *Session) write(w bool, n *com.Packet) error {
 	if !w && len(s.send)+m >= cap(s.send) {
 		return ErrFullBuffer
 	}
+	// NOTE: All fragments of a Packet must carry the same Job ID to be put back
+	//       together ('Belongs'). A Packet without one would get a different
+	//       random Job ID for every fragment later on (see 'verifyPacket'), so
+	//       pick it here, once.
+	if n.Job == 0 && n.Flags&com.FlagProxy == 0 && n.ID > 1 {
+		n.Job = uint16(2 + util.FastRandN(0xFFFD))
+	}
 	var (
 		x    = int64(n.Size())
 		g    = uint16(util.FastRand())
